@@ -9,5 +9,10 @@ import (
 
 func init() {
 	facts.Tables = append(facts.Tables, facts.Table{File: "C04Tables.lean", Gen: c04.TablesLean})
-	runners["C04"] = func(c *Ctx) error { return c04.Run(c.Tier, c.Seed, c.ModelPath, c.Repo, c.R) }
+	runners["C04"] = func(c *Ctx) error {
+		if c.Replay != "" {
+			return c04.Replay(c.Replay, c.ModelPath, c.Repo, c.R)
+		}
+		return c04.Run(c.Tier, c.Seed, c.ModelPath, c.Repo, c.R)
+	}
 }
